@@ -116,10 +116,10 @@ type Step struct {
 	Index *int   `json:"index,omitempty"`
 }
 
-func vS(s string) *Val  { return &Val{K: "s", S: s} }
-func vN(n string) *Val  { return &Val{K: "n", N: n} }
-func vB(b bool) *Val    { return &Val{K: "b", B: b} }
-func vNull() *Val       { return &Val{K: "null"} }
+func vS(s string) *Val   { return &Val{K: "s", S: s} }
+func vN(n string) *Val   { return &Val{K: "n", N: n} }
+func vB(b bool) *Val     { return &Val{K: "b", B: b} }
+func vNull() *Val        { return &Val{K: "null"} }
 func vSeq(e []*Val) *Val { return &Val{K: "seq", Seq: e} }
 
 func vRef(root string, names ...string) *Val {
